@@ -858,7 +858,10 @@ int main(int argc, char *argv[])
     {
       uint32_t start, end;
 
-      if (util_context.get_range(arg.value(), &start, &end) == -1)
+      // dump_ram() takes signed ints: addresses from 0x80000000 on would be
+      // negative there and a start above the end counts through 4G values.
+      if (util_context.get_range(arg.value(), &start, &end) == -1 ||
+          start > end || end > 0x7fffffff)
       {
         printf("Illegal range.\n");
       }
